@@ -65,9 +65,9 @@ theorem heap_step {g : Blk} {s : State} (hs : Heap g s) (op : Op) (hn : normal o
   split
   · exact hs
   · cases op with
-    | build n => exact hs.build n
+    | build n c => exact hs.build n c
     | parse b => exact hs.parse b
-    | verify h => dsimp only; split; exact hs.verify h ‹_›; exact hs
+    | verify h c => dsimp only; split; exact hs.verify h c ‹_›; exact hs
     | accept h => dsimp only; split; exact hs.accept h ‹_›; exact hs
     | reject h => dsimp only; split; exact hs.reject h; exact hs
     | pref id => exact hs.congr rfl rfl rfl rfl rfl rfl rfl rfl
@@ -258,10 +258,10 @@ theorem queue_drains_partial (s : State) :
 
 /-! non-vacuity: a concrete EngineOK run (build, verify, fork, accept, reject, process) -/
 def demoOps : List Op :=
-  [.build 101, .verify 1, .parse ⟨102, 100, 1, false⟩, .verify 2, .accept 2, .deq, .reject 1, .fin, .last]
-def demo : Sys := (Sys.init 2 2 0 ⟨100, 99, 0, false⟩ true).run demoOps
-example : engineOK (Sys.init 2 2 0 ⟨100, 99, 0, false⟩ true) demoOps = true := by decide
-example : acceptLog demo.s.log = [⟨102, 100, 1, false⟩] := by decide
+  [.build 101 none, .verify 1 none, .parse ⟨102, 100, 1, false, none⟩, .verify 2 none, .accept 2, .deq, .reject 1, .fin, .last]
+def demo : Sys := (Sys.init 2 2 0 ⟨100, 99, 0, false, none⟩ true).run demoOps
+example : engineOK (Sys.init 2 2 0 ⟨100, 99, 0, false, none⟩ true) demoOps = true := by decide
+example : acceptLog demo.s.log = [⟨102, 100, 1, false, none⟩] := by decide
 example : (verifyRes demo.s.log).length = 1 := by decide
 
 end HyperModel.Props.C20
